@@ -236,7 +236,11 @@ CHECKS = {
              "than any block stamped later than birthday + 2h. Tie to the code: real Wallet.recovery over simchain (real chain.BlockFilterer), random usage patterns "
              "satisfying / violating the look-ahead by one index, W in {1,2,5,20}, all four default scopes, later spends of recovered outputs, chains crossing the "
              "2000-block batch boundary, interrupted-and-resumed on a reopened wallet, locked and unlocked; VerifLocateBirthdayBlock on random monotone timestamp lists.",
-        note="Exercised only: locked vs unlocked (the model has no lock state) and CalculateBalance = sum of the unspent set (C01's subject). Invalid children are "
+        note="'Ends with the correct balance' is proved end to end (C16_recovered_balance_is_ledger_balance): the chain is translated into a Tx universe and the recorded "
+             "transactions into the Confirm history applied by addRelevantTx; under the completeness hypotheses plus chain_txs_wf (ids are ranks, inputs in range, "
+             "positive amounts, coinbases without inputs) that history is chain-consistent for a well-formed universe, so by C01 the store's Balance(1, tip) equals "
+             "the ledger balance = the sum of the model's final unspent wallet outputs that are not immature coinbase outputs. Exercised only: locked vs unlocked "
+             "(the model has no lock state) and that the real CalculateBalance equals the store model's balance (C01's correspondence). Invalid children are "
              "model-only (cannot be produced on real keys). 'A block that could pay the wallet' is read as 'stamped later than the searched birthday + 2h' (the stored "
              "birthday is creation time minus 48 h); within the +-2h tolerance the search may return a block later than the first block stamped after the birthday "
              "(C16_birthday_within_tolerance_not_first) - coded tolerance, not flagged. Trusted: path-to-address identification, simchain, walletenv. No axioms."),
@@ -275,4 +279,22 @@ CHECKS = {
              "SetSyncedTo(nil). 14 (kind, site) pairs of K are recorded known findings (eager in-memory updates, same root cause as C10's); S4 (phantom address "
              "after a rolled-back issuance) was repaired (fix: a362ebf). One key scope, manager unlocked, no watch-only accounts, fault-free database in the model. "
              "Trusted: address<->path table derived with hdkeychain, bbolt. No axioms."),
+    "C03": dict(
+        text="Executable model Addr/Mgr.v of waddrmgr key derivation and private-key availability (disk rows, account and address caches, deriveOnUnlock, "
+             "privKeyCache; symbolic HD keys in Addr/Keys.v with pub(ckd_priv k i) = ckd_pub(pub k) i by construction), parameterised by three facts regenerated "
+             "from the source. 14 closed theorems over every history from Create(seed) (invariant preserved by all 18 operations, about 4000 lines): account rows "
+             "hold m/purpose'/coin'/account' or the imported xpub; NextAddresses returns exactly indices next..next+n-1 as CKDpub(CKDpub(account key, branch), "
+             "index) in the scope's or the account's overriding format, with true path, account and internal flag; stored next indices move only by Next (+n) and "
+             "Extend (to last+1) - consecutive, no repetition; Manager.Address and DeriveFromKeyPath return children of the account key at the reported path; a "
+             "re-created wallet has the same account keys; a returned private key is never wrong; whenever unlocked, PrivKey() of any held address of an account "
+             "with a private key returns the key of its public key (fresh, cached, derived while locked, extended, loaded after restart); imported keys and scripts "
+             "come back unchanged; C03_refuted_when_false for the pre-fix extendAddresses. Tie to the code: real waddrmgr on bbolt, several seeds, the four default "
+             "scopes + a custom scope, accounts 0..3 + imported xpub accounts with and without schema override, random histories incl. restarts; every returned "
+             "address/pubkey/privkey is projected to a path by an INDEPENDENT BIP32 implementation (HMAC-SHA512 + btcec point arithmetic, standard and legacy "
+             "hardened rule) with independent address encoders, plus the direct test privKey.PubKey() == PubKey().",
+        note="Three defects found and repaired (fix: 37693ad extendAddresses, fc8a2e4 DeriveFromKeyPathCache, b387b8f last account of a new scope); replays run "
+             "first from corpus/C03. PARTIAL: keys are symbolic, so bytes and address encodings are exercised by the independent oracle on every run, not proved; "
+             "invalid BIP32 children, a watching-only root manager, ConvertToWatchingOnly and witness/taproot scripts are not modelled. Observations not raised: "
+             "addresses made by extendAddresses report MasterKeyFingerprint 0 until restart; with a leading-zero coin-type key account 0 follows the legacy hardened "
+             "rule while later accounts follow the standard one (a re-created wallet still agrees). Trusted: hdoracle with btcec group operations, extractor."),
 }
